@@ -20,6 +20,7 @@ RULE = ('cases: up to 8 submissions (plain / awaitable / list, range, generator,
 ASSUMPTIONS = ['arguments are hashable ints, unique per submission except one deliberate duplicate',
                'cooperative shims faithful (selftest); source-line granularity of aiuti/asyncio.py',
                'quiescence = (failures+3)*(timeout+duration)+4*timeout+2 s after the last event']
+CORPUS_PREEMPTIONS = {}
 BUDGET = {'quick': 250, 'thorough': 6000}
 ESSENTIAL = ['nontrivial', 'function-failed', 'foreign-thread', 'producer-failed']
 valid = B.valid
